@@ -305,6 +305,8 @@ class Gen:
         self.max_rep_lo = 2
         self.lits = rng.sample(LITS, rng.randint(3, 6))
         self.res = rng.sample([p for p, _, _ in REGEXES], rng.randint(1, 3))
+        self.helper = False      # this level has a Python section that defines hlp(v) / hlq(v)
+        self.lit_calls = []      # calls with a literal argument written so far along the chain
 
     # -- helpers
     def _terminal(self, consume):
@@ -436,9 +438,11 @@ class Gen:
         if kind == 'skip':
             return ['skip', self.expr(rank, leftmost, True, d, supers)]
         if kind == 'apply':
-            return ['apply', self.expr(rank, leftmost, consume, d, supers), r.choice(APPLY_FUNCS)]
+            f = 'hlp' if (self.helper and r.random() < 0.6) else r.choice(APPLY_FUNCS)
+            return ['apply', self.expr(rank, leftmost, consume, d, supers), f]
         if kind == 'where':
-            return ['where', self.expr(rank, leftmost, consume, d, supers), r.choice(WHERE_FUNCS)]
+            f = 'hlq' if (self.helper and r.random() < 0.5) else r.choice(WHERE_FUNCS)
+            return ['where', self.expr(rank, leftmost, consume, d, supers), f]
         if kind == 'let':
             a = self.expr(rank, leftmost, consume, d, supers)
             b = self.expr(rank, leftmost and nullable(a, self._env()), False, d, supers)
@@ -489,16 +493,38 @@ class Gen:
         return out
 
 
+def helper_section(level_tag, variant):
+    """A Python section that defines the helpers hlp (a `|>` function) and hlq (a `where` predicate).  Every level
+    of a chain that has one defines them DIFFERENTLY; inline Python of a rule sees the helpers of the grammar the
+    rule is written in."""
+    preds = ['True', 'not isinstance(v, str) or len(v) < 3', 'v != "a"', 'bool(v)']
+    return {'k': 'py', 'helper': True,
+            'code': 'def hlp(v):\n    return [%s, v]\n\ndef hlq(v):\n    return %s\n' % (_q(level_tag), preds[variant % len(preds)])}
+
+
+def collect_lit_calls(items):
+    out = []
+    for it in items:
+        for ex in item_exprs(it):
+            for n in walk(ex):
+                if n[0] == 'call' and len(n) == 3 and n[2][0] == 'lit':
+                    out.append(n)
+    return out
+
+
 def is_start(name):
     return isinstance(name, str) and name.lower() == 'start'
 
 
 def gen_root(rng, named, n_rules=None, hook_p=0.5, ignore=None, features=None, class_start=True, max_rep_lo=2,
-             start_spelling=None):
+             start_spelling=None, helpers_p=0.0):
     """A root (non-extending) module spec.  Returns (spec, gen) -- gen carries the rule table.
     ignore: None = random, 'none' | 'anon' | 'named'."""
     g = Gen(rng, features)
     g.max_rep_lo = max_rep_lo
+    if helpers_p and rng.random() < helpers_p:
+        g.helper = True
+        g.features |= {'apply', 'where'}
     n = n_rules or rng.randint(2, 7)
     # the start rule is recognised whatever its case; rule names themselves are case-sensitive
     sname = start_spelling or 'start'
@@ -585,12 +611,15 @@ def gen_root(rng, named, n_rules=None, hook_p=0.5, ignore=None, features=None, c
         out = ig_items + out + order
     else:
         out = out + order + ig_items
+    if g.helper:
+        out = [helper_section('L0', rng.randrange(4))] + out
+    g.lit_calls = collect_lit_calls(out)
     spec = {'named': bool(named), 'extends': None, 'items': out}
     return spec, g
 
 
 def gen_child(rng, parent_gen, hook_p=0.4, ignore=None, allow_super=True, force=(), override_ignore_p=0.0,
-              respell_start_p=0.0, force_body=None, force_items=()):
+              respell_start_p=0.0, force_body=None, force_items=(), helpers_p=0.0, echo_lit_call_p=0.0):
     """A module spec extending the module described by parent_gen.table.
     Returns (spec, gen) where gen.table is the effective table of the child."""
     g = Gen(rng, parent_gen.features)
@@ -599,6 +628,11 @@ def gen_child(rng, parent_gen, hook_p=0.4, ignore=None, allow_super=True, force=
     g.res = list(parent_gen.res)
     g.tagn = parent_gen.tagn + 100
     g.table = {n: dict(i) for n, i in parent_gen.table.items()}
+    if helpers_p and rng.random() < (0.8 if parent_gen.helper else helpers_p):
+        # (a level whose parent has helpers mostly defines its own, differently)
+        g.helper = True
+        g.features = set(g.features) | {'apply', 'where'}
+    g.depth = getattr(parent_gen, 'depth', 0) + 1
     cands = sorted(n for n, i in g.table.items() if i['kind'] in ('rule', 'class') and not is_start(n))
     eff = getattr(parent_gen, 'start_name', None)
     if eff is None or eff not in g.table:
@@ -664,6 +698,14 @@ def gen_child(rng, parent_gen, hook_p=0.4, ignore=None, allow_super=True, force=
         info['nullable'] = nullable(body, g._env())
     for it in force_items:
         items.append(dict(it))
+    plc = list(getattr(parent_gen, 'lit_calls', ()))
+    if echo_lit_call_p and plc and rng.random() < echo_lit_call_p:
+        # the derived grammar passes the SAME literal to the same parameterised rule as some ancestor does
+        tgt = [it for it in items if it['k'] == 'rule' and not it.get('params') and not it.get('ignore')]
+        if tgt:
+            it = rng.choice(tgt)
+            echo = rng.choice(plc)
+            it['expr'] = ['alt', [echo[0], echo[1], list(echo[2])], it['expr']] if rng.random() < 0.5 else ['alt', it['expr'], [echo[0], echo[1], list(echo[2])]]
     if not items:
         nm = 'N%d_x' % g.tagn
         items.append({'k': 'rule', 'name': nm, 'expr': g._terminal(True)})
@@ -702,6 +744,9 @@ def gen_child(rng, parent_gen, hook_p=0.4, ignore=None, allow_super=True, force=
             it['override'] = True
         items.append(it)
         g.table[nm] = dict(g.table[nm], pattern=pat)
+    if g.helper:
+        items.insert(0, helper_section('L%d' % g.depth, rng.randrange(4)))
+    g.lit_calls = plc + collect_lit_calls(items)
     spec = {'named': True, 'extends': True, 'items': items}
     if (len(items) == 1 and items[0]['k'] == 'rule' and items[0]['name'] == 'start' and not items[0].get('ignore')
             and items[0]['expr'][0] != 'optable' and rng.random() < 0.7):
